@@ -3,6 +3,8 @@
 run, the model's outcome (Eval vm_compute of `run sc c`) and the observed one,
 item by item, marking the first difference; also the monitors' verdicts."""
 import re, subprocess, sys, os
+ROOT = os.path.abspath(os.path.join(os.path.dirname(os.path.abspath(__file__)), "..", "..", ".."))
+TMP = "/tmp/pipe" if ROOT == "/verif" else "/tmp/pipe_" + os.path.basename(ROOT)
 
 def split_top(s, sep):
     out, depth, cur = [], 0, ""
@@ -18,7 +20,7 @@ def split_top(s, sep):
 
 def main():
     prop, fname, idx = sys.argv[1], sys.argv[2], int(sys.argv[3])
-    d = "/tmp/pipe/" + prop
+    d = TMP + "/" + prop
     src = open(os.path.join(d, fname + ".v")).read()
     body = src.split("Definition cases := [\n", 1)[1].split("\n].\nDefinition Bad", 1)[0]
     cases = body.split(";\n  ((mkCl")
@@ -32,7 +34,7 @@ def main():
          "Definition res := Eval vm_compute in go (fst h) (snd h).\nPrint res.\n") % case
     p = os.path.join(d, "Dbg.v")
     open(p, "w").write(v)
-    r = subprocess.run(["coqc", "-Q", "/verif/coq/theories", "CliUtils", "-w", "-notation-overridden,-deprecated", "Dbg.v"],
+    r = subprocess.run(["coqc", "-Q", ROOT + "/coq/theories", "CliUtils", "-w", "-notation-overridden,-deprecated", "Dbg.v"],
                        cwd=d, stdout=subprocess.PIPE, stderr=subprocess.STDOUT, text=True)
     o = r.stdout
     if r.returncode != 0:
